@@ -838,6 +838,23 @@ int main(int argc, char **argv) {
 #endif
     if (argc < 2) { fprintf(stderr, "usage: sim run|replay|show ...\n"); return 2; }
     a.mode = argv[1];
+    {   // constants of the library built from the tree (see build.sh)
+        char exe[4096]; ssize_t n = readlink("/proc/self/exe", exe, sizeof exe - 1);
+        if (n > 0) {
+            exe[n] = 0;
+            std::string d(exe); size_t sl = d.rfind('/');
+            std::string text;
+            if (sl != std::string::npos && read_file(d.substr(0, sl) + "/dict.txt", text)) {
+                size_t pos = 0;
+                while (pos < text.size()) {
+                    size_t e = text.find('\n', pos); if (e == std::string::npos) e = text.size();
+                    unsigned long long v = strtoull(text.substr(pos, e - pos).c_str(), nullptr, 16);
+                    if (e > pos) { g_dict.push_back((uint32_t)v); if (v >> 32) g_dict.push_back((uint32_t)(v >> 32)); }
+                    pos = e + 1;
+                }
+            }
+        }
+    }
     g_variant = sim_variant_name;
     g_trng_flavor = sim_trng_flavor_name;
     for (int i = 2; i < argc; i++) {
